@@ -1,6 +1,136 @@
 import Q1t.Model.Square
 import Q1t.Spec.Square
-/-! # C16 — placeholder while the proofs are being written -/
+import Q1t.Proofs.SquareSpec
+import Q1t.Proofs.AmpComplex
+/-!
+# C16 — a gate's square is the gate applied twice
+
+Property theorems only.  `Gate.square` (`Q1t/Model/Square.lean`) is the executable model of every
+`impl Square` of `src/gates/*.rs`, one clause per impl (tied to the code by the correspondence run
+of `tools/check.py C16`).  Terms carry `Param V` parameters (`Direct | Reference | FFIRef`); `ev s g`
+is the term denoted under the store `s`.  `Spec.sqOK g g2`: `matrix g2 = matrix g · matrix g`;
+`Spec.sqPhaseBy c g g2`: `c·c̄ = 1 ∧ matrix g2 = c · (matrix g · matrix g)`; `sqPhase`: for some `c`.
+
+The general theorems hold for every commutative ring `α` with `Amp α V` satisfying `LawfulAmp`
+(`Q1t/Proofs/AmpLaws.lean`), `LawfulHalf` (`(φ+λ)/2 = φ/2+λ/2`, `λ/2+λ/2 = λ` under cos/sin) and
+`LawfulSq` (`(2x)/2 = x`, `2x = x+x`, `(λ+φ−π)/2 = (φ+λ)/2 − π/2`, `cos(x−π/2) = sin x`,
+`sin(x−π/2) = −cos x` — the `f64` arithmetic of the impls), for ALL parameter values; ℂ with the
+real cosine and sine is such a model (`complex_is_model`).
+
+`ExactInv g g2` / `PhaseInv g g2` (Proofs/SquareTerm.lean): `nrBits g2 = nrBits g`, both matrices
+are well-formed `2^k × 2^k` tables, and `sqOK g g2` / `sqPhase g g2`.
+-/
 namespace Q1t.Props.C16
-theorem placeholder : True := trivial
+open Q1t Q1t.Gate Q1t.Spec Q1t.LMat Q1t.Proofs.Unitaries Q1t.Proofs.Square ParamArith
+
+section general
+variable {α V : Type} [CommRing α] [Amp α V] [ParamArith V]
+
+/-- Every primitive except `U2` (H X Y Z S Sdg T Tdg V Vdg I RX RY RZ U1 CX CY CZ Swap; `U3` never
+returns): whenever `square()` returns a gate, its matrix is exactly the original's squared, for all
+parameter values and under every store. -/
+theorem square_exact_prim (h : LawfulAmp α V) (hh : LawfulHalf α V) (hs : LawfulSq α V) (s : Store V)
+    (g g2 : GateTerm (Param V)) (hp : IsPrim g) (hu : ∀ p l, g ≠ .U2 p l) (hsq : square g = .ok g2) :
+    sqOK (α := α) (ev s g) (ev s g2) :=
+  square_prim_exact h hh hs s g g2 hp hu hsq
+
+/-- `U2(φ,λ).square() = U3(λ+φ−π, φ−π/2, λ−π/2)` equals `U2(φ,λ)²` up to the explicit global phase
+`i·e^{-i(φ+λ)/2} = e^{-i(φ+λ-π)/2}` (and only up to it, see `cu2_square_wrong`). -/
+theorem u2_square_phase (h : LawfulAmp α V) (hh : LawfulHalf α V) (hs : LawfulSq α V) (p l : V) :
+    square (.U2 (.direct p) (.direct l)) =
+      .ok (.U3 (.direct (u2theta p l)) (.direct (subHalfPi p)) (.direct (subHalfPi l))) ∧
+    sqPhaseBy (α := α) (u2Phase p l) (.U2 p l) (.U3 (u2theta p l) (subHalfPi p) (subHalfPi l)) :=
+  ⟨rfl, sq_u2 h hh hs p l⟩
+
+omit [ParamArith V] in
+/-- Exactness is preserved by `C`, `Kron` and `Loop` (the last given the C04 corollary
+`matrix (Loop … k …) = (matrix body)^k`, hypothesis `LoopOK`); equality up to a global phase is
+preserved by `Kron` (phases multiply) and `Loop`, but under `C` only exactness carries over. -/
+theorem square_term (h : LawfulAmp α V) {g g2 g0 g1 a b : GateTerm V} :
+    (ExactInv (α := α) g g2 → ExactInv (α := α) (.C g) (.C g2)) ∧
+    (ExactInv (α := α) g0 a → ExactInv (α := α) g1 b → ExactInv (α := α) (.Kron g0 g1) (.Kron a b)) ∧
+    (PhaseInv (α := α) g0 a → PhaseInv (α := α) g1 b → PhaseInv (α := α) (.Kron g0 g1) (.Kron a b)) ∧
+    (∀ (label nm : String) (n : Nat) (body : OpList V) (k : Nat), LoopOK (α := α) label nm n body →
+      ExactInv (α := α) (.Loop label k nm n body) (.Loop label (2 * k) nm n body)) ∧
+    (ExactInv (α := α) g g2 → PhaseInv (α := α) g g2) :=
+  ⟨exact_C, exact_Kron, phase_Kron h, fun _ _ _ _ k hl => exact_Loop k hl, phase_of_exact h⟩
+
+/- Full statement of the property:
+     ∀ g g2 s, square g = .ok g2 → sqPhase (ev s g) (ev s g2)
+   It is FALSE on the pinned code (D7, `cu2_square_wrong`).  Proved: all terms in which no `U2` sits
+   below a `C` (and exactly, not only up to a phase, when there is no `U2` at all); the loops of the
+   term must satisfy the C04 corollary (`LoopsOK`, discharged by Q1t/Props/C04.lean for well-placed
+   bodies). -/
+theorem square_spec_partial (h : LawfulAmp α V) (hh : LawfulHalf α V) (hs : LawfulSq α V)
+    (s : Store V) (g g2 : GateTerm (Param V)) (hsq : square g = .ok g2) (hl : LoopsOK α s g) :
+    (U2Free g → nrBits (ev s g2) = nrBits (ev s g) ∧ sqOK (α := α) (ev s g) (ev s g2)) ∧
+    (NoU2UnderC g → nrBits (ev s g2) = nrBits (ev s g) ∧ sqPhase (α := α) (ev s g) (ev s g2)) :=
+  ⟨fun hf => let e := (square_inv h hh hs s g g2 hsq hl).1 hf; ⟨e.1, e.2.2.2⟩,
+   fun hf => let e := (square_inv h hh hs s g g2 hsq hl).2 hf; ⟨e.1, e.2.2.2⟩⟩
+
+/-- D7, scheme: the gate returned by `C(U2(φ,λ)).square()` is NOT `C(U2(φ,λ))` applied twice, not
+even up to a global phase, whenever `i·e^{-i(φ+λ)/2} ≠ 1`. -/
+theorem cu2_square_wrong_of_phase (h : LawfulAmp α V) (hh : LawfulHalf α V) (hs : LawfulSq α V)
+    (p l : V) (hne : (u2Phase p l : α) ≠ 1) :
+    square (.C (.U2 (.direct p) (.direct l))) =
+      .ok (.C (.U3 (.direct (u2theta p l)) (.direct (subHalfPi p)) (.direct (subHalfPi l)))) ∧
+    ¬ sqPhase (α := α) (.C (.U2 p l)) (.C (.U3 (u2theta p l) (subHalfPi p) (subHalfPi l))) :=
+  ⟨rfl, fun hp => hne (cu2_phase_one h hh hs p l hp)⟩
+
+/-- A `Reference`/`FFIRef` parameter is never frozen: the parametrised primitives refuse it with
+`ReferenceArithmetic`; `C` forwards that error, `Kron` turns it into `OpNotImplemented`; and
+whenever `square` succeeds, no parameter outside loop bodies was a reference (loop bodies are kept
+unchanged, so their references stay live: `square_loop_keeps_body`). -/
+theorem square_reference_refused (p q : Param V) (hp : p.isDirect = false) (g g' g2 : GateTerm (Param V)) :
+    (square (.RX p) = .error .referenceArithmetic ∧ square (.RY p) = .error .referenceArithmetic ∧
+     square (.RZ p) = .error .referenceArithmetic ∧ square (.U1 p) = .error .referenceArithmetic ∧
+     square (.U2 p q) = .error .referenceArithmetic ∧ square (.U2 q p) = .error .referenceArithmetic) ∧
+    (∀ e, square g = .error e → square (.C g) = .error e) ∧
+    (∀ e, square g = .error e → e ≠ .noImpl → square g' ≠ .error .noImpl →
+      square (.Kron g g') = .error .opNotImplemented ∧ square (.Kron g' g) = .error .opNotImplemented) ∧
+    (square g = .ok g2 → refFree g) :=
+  ⟨square_ref_prims p q hp, fun e he => (square_wrappers_err g g' e he).1,
+   fun e he => (square_wrappers_err g g' e he).2, square_ok_refFree g g2⟩
+
+theorem square_loop_keeps_body (label nm : String) (k n : Nat) (body : OpList (Param V)) :
+    square (.Loop label k nm n body) = .ok (.Loop label (2 * k) nm n body) := rfl
+
+/-- `U3` has no closed form: the trait's default `OpNotImplemented`.  `Composite` (and every wrapper
+around it) has no `impl Square` at all. -/
+theorem square_unimplemented (θ φ l : Param V) (nm : String) (n : Nat) (ops : OpList (Param V))
+    (g : GateTerm (Param V)) :
+    square (.U3 θ φ l) = .error .opNotImplemented ∧
+    square (.Composite nm n ops) = .error .noImpl ∧
+    square (.C (.Composite nm n ops)) = .error .noImpl ∧
+    square (.Kron (.Composite nm n ops) g) = .error .noImpl ∧
+    square (.Kron g (.Composite nm n ops)) = .error .noImpl :=
+  square_unimpl θ φ l nm n ops g
+
+end general
+
+/-! ## the complex numbers are a model; the concrete D7 witness -/
+
+open Q1t.AmpComplex in
+/-- ℂ with `Real.cos`, `Real.sin`, `θ/2`, `2x`, `λ+φ−π`, `x−π/2` satisfies all the laws assumed above. -/
+theorem complex_is_model : LawfulAmp ℂ ℝ ∧ LawfulHalf ℂ ℝ ∧ LawfulSq ℂ ℝ :=
+  ⟨lawful, lawfulHalf, lawfulSq⟩
+
+open Q1t.AmpComplex in
+/-- D7, concrete: over ℂ, `CU2(0,0).square()` returns `C(U3(−π, −π/2, −π/2))`, which is not
+`CU2(0,0)` applied twice up to any global phase. -/
+theorem cu2_square_wrong :
+    square (.C (.U2 (.direct (0 : ℝ)) (.direct 0))) =
+      .ok (.C (.U3 (.direct (0 + 0 - Real.pi)) (.direct (0 - Real.pi / 2)) (.direct (0 - Real.pi / 2)))) ∧
+    ¬ sqPhase (α := ℂ) (.C (.U2 (0 : ℝ) 0)) (.C (.U3 (0 + 0 - Real.pi) (0 - Real.pi / 2) (0 - Real.pi / 2))) :=
+  cu2_square_wrong_of_phase lawful lawfulHalf lawfulSq 0 0 u2Phase_zero_ne_one
+
+/-! ## non-vacuity -/
+
+example : square (.C (.C (.RY (.direct (1.5 : Float))))) = .ok (.C (.C (.RY (.direct (2.0 * 1.5))))) := rfl
+example : square (.Kron (.RX (.reference 3)) .X : GateTerm (Param Float)) = .error .opNotImplemented := rfl
+example : square (.C (.RX (.ffiRef 0)) : GateTerm (Param Float)) = .error .referenceArithmetic := rfl
+example : U2Free (.C (.Kron .S (.RZ (.direct (0 : ℝ)))) : GateTerm (Param ℝ)) := ⟨trivial, trivial⟩
+example : ¬ NoU2UnderC (.C (.U2 (.direct (0 : ℝ)) (.direct 0)) : GateTerm (Param ℝ)) := id
+example : NoU2UnderC (.Kron (.U2 (.direct (0 : ℝ)) (.direct 0)) .CX : GateTerm (Param ℝ)) := ⟨trivial, trivial⟩
+
 end Q1t.Props.C16
